@@ -322,7 +322,7 @@ class Exec:
     def __init__(self, fns, consts, allocs, contracts, solver_timeout=20000):
         self.fns, self.consts, self.allocs, self.contracts = fns, consts, allocs, contracts
         self.stats = {'paths': 0, 'inlined': set(), 'contracts': set(), 'feas_checks': 0, 'bounds': {}}
-        self.timeout = solver_timeout; self.quick_ms = 300; self.tolerate_unsupported = True
+        self.timeout = solver_timeout; self.quick_ms = 300; self.tolerate_unsupported = True; self.havoc_on_unsupported = True
         self.static_names = allocs.get('__static_names__', {})
         self.ih = {}; self.world_fields = None
 
@@ -520,11 +520,17 @@ class Exec:
             a, b = [self.operand(st, fr, x) for x in split_top(m.group(2))]
             return {'Eq': lambda: a == b, 'Ne': lambda: a != b, 'Lt': lambda: a < b, 'Le': lambda: a <= b, 'Gt': lambda: a > b,
                     'Ge': lambda: a >= b, 'Add': lambda: a + b, 'Sub': lambda: a - b}.get(m.group(1), lambda: (_ for _ in ()).throw(Unsupported('binop ' + m.group(1))))()
-        m = re.match(r'(AddWithOverflow|SubWithOverflow)\((.*)\)$', s)
+        m = re.match(r'(AddWithOverflow|SubWithOverflow|MulWithOverflow)\((.*)\)$', s)
         if m:
             a, b = [self.operand(st, fr, x) for x in split_top(m.group(2))]
-            r = a + b if m.group(1)[0] == 'A' else a - b
+            r = a + b if m.group(1)[0] == 'A' else (a - b if m.group(1)[0] == 'S' else a * b)
             return tup(r, Or(r < 0, r >= 2**64))
+        m = re.match(r'(Mul|Div|Rem)\((.*)\)$', s)
+        if m:
+            a, b = [self.operand(st, fr, x) for x in split_top(m.group(2))]      # unsigned operands (the crate has no signed arithmetic in reach); a zero divisor is excluded by the MIR assert before
+            return a * b if m.group(1) == 'Mul' else (a / b if m.group(1) == 'Div' else a % b)
+        m = re.match(r'(BitOr|BitXor|Shl|ShlUnchecked|ShrUnchecked|AddUnchecked|SubUnchecked|MulUnchecked|Offset|Cmp|UbChecks|NullOp|SizeOf|AlignOf|Len|CopyForDeref|ShallowInitBox|ThreadLocalRef|AddressOf)\((.*)\)$', s)
+        if m: raise Unsupported('rvalue ' + m.group(1))
         m = re.match(r'Not\((.*)\)$', s)
         if m: return Not(self.operand(st, fr, m.group(1)))
         # aggregates
@@ -616,9 +622,57 @@ class Exec:
                     else: results.append((nxt[1], nxt[2])); self.stats['paths'] += 1
             except Unsupported as e:
                 msg = '%s  [in %s %s]' % (e, st.stack[-1]['fn'].name[-70:] if st.stack else '?', st.stack[-1]['bb'] if st.stack else '?')
+                hv = self.havoc(st, msg) if self.havoc_on_unsupported else None
+                if hv is not None:
+                    for nxt in hv:
+                        if nxt[0] == 'cont': work.append(nxt[1])
+                        else: results.append((nxt[1], nxt[2])); self.stats['paths'] += 1
+                    continue
                 if self._depth > 1 or not self.tolerate_unsupported: raise Unsupported(msg)
                 self.stats.setdefault('unsupported', []).append(msg)      # this path is abandoned and reported as undecided; the others go on
         return results
+
+    # --- abstraction of a crate function whose body holds a construct the executor cannot encode (a data-dependent loop, an iterator adaptor over
+    # symbolic bytes): the innermost enclosing crate function that only reads its arguments is replaced by "returns any value of its type, or
+    # panics".  This over-approximates the function, so obligations that are still unsat hold for the real code; a sat answer is a candidate that
+    # counts only if the native replay reproduces it (otherwise the check ends undecided).
+    def havoc_type(self, st, ty, tag):
+        ty = strip_lifetimes(ty).strip()
+        n = self.stats['havoc_n'] = self.stats.get('havoc_n', 0) + 1
+        nm = 'havoc%d_%s' % (n, tag)
+        if ty in ('std::string::String', 'String', '&str'): return [String(nm)]
+        if ty in ('Vec<u8>', 'std::vec::Vec<u8>', '&[u8]'): return [Const(nm, Bytes)]
+        if ty == 'bool': return [Bool(nm)]
+        if ty == '()': return [UNIT]
+        if ty in ('usize', 'u64', 'u32', 'u8'):
+            v = Int(nm); st.pc.append(And(v >= 0, v < 2 ** {'usize': 64, 'u64': 64, 'u32': 32, 'u8': 8}[ty])); return [v]
+        m = re.match(r'(?:std::result::|core::result::)?Result<(.*)>$', ty)
+        if m:
+            parts = split_top(m.group(1))
+            if len(parts) == 2:
+                inner = self.havoc_type(st, parts[0], tag)
+                if inner is None: return None
+                return [ok(x) for x in inner] + [err(adt(parts[1].strip().split('::')[-1], 'AbstractedError'))]
+        return None
+
+    def havoc(self, st, msg):
+        for depth in range(len(st.stack) - 1, -1, -1):
+            f = st.stack[depth]['fn']
+            sig = getattr(f, 'sig', '') or ''
+            if ' -> ' not in sig or '&mut ' in sig or '{closure' in f.name or '::{' in f.name.split('::')[-1]: continue
+            rty = sig.rsplit(' -> ', 1)[1].strip()
+            for gname, gty in st.stack[depth].get('subst', {}).items():
+                if not gname.startswith('impl '): rty = re.sub(r'(?<![\w:])%s(?![\w])' % re.escape(gname), lambda m_: gty, rty)
+            tag = re.sub(r'\W+', '_', f.method or 'fn')
+            vals = self.havoc_type(st, rty, tag)
+            if vals is None: continue
+            self.stats.setdefault('abstracted', []).append('%s abstracted to "any %s, or a panic" because: %s' % (f.name[-80:], rty, msg[:300]))
+            outs = []
+            for v in vals + [Panic('abstracted function %s may panic' % (f.method or f.name[-30:]))]:
+                s2 = st.fork(); del s2.stack[depth + 1:]
+                outs += self.ret(s2, v)
+            return outs
+        return None
 
     def run_sub(self, fn, args, st, inherit_subst=False, subst=None):
         """run fn to completion from a copy of st's heap; returns [(state, value)] with the caller's stack restored"""
